@@ -167,10 +167,15 @@ static void gen_simplex(Draw &d, Case &c) {
     M A(dim, dim); bool iso = d.coin(50);
     for (int i = 0; i < dim; i++) A(i, i) = iso ? 1.0 : (double)d.i(1, 4);
     c.p = {dim}; put(c, A);
-    for (int i = 0; i < dim; i++) c.v.push_back((double)d.i(-5, 5));
+    // coordinate level: a third of the grid-aligned cases sit at 1e4 or 1e6 (exactly representable), where "the vertices have come
+    // together" must not be judged relative to the coordinates
+    double level = d.coin(65) ? 0.0 : d.pick<double>({1e4, 1e6});
+    if (level != 0.0) c.tags.push_back(fmt("level=%g", level));
+    for (int i = 0; i < dim; i++) c.v.push_back((double)d.i(-5, 5) + level);
     c.v.push_back((double)d.i(-10, 10));
-    for (int i = 0; i < dim; i++) c.v.push_back((double)d.i(-8, 8) / 2);
+    { bool fine = d.coin(40); for (int i = 0; i < dim; i++) c.v.push_back(fine ? (double)d.i(-64, 64) / 32 : (double)d.i(-8, 8) / 2); }
     for (int i = 0; i < dim; i++) c.v.push_back((d.coin(50) ? 1 : -1) * d.pick<double>({0.5, 1.0, 1.0, 2.0}));
+    { double xt = d.pick<double>({1e-12, 1e-12, 1e-8, 1e-6}); c.v.push_back(xt); if (xt != 1e-12) c.tags.push_back(fmt("xtol=%g", xt)); }
     c.nontrivial = true;
     c.tags.push_back(fmt("dim=%d", dim)); c.tags.push_back("grid-aligned(ties)");
     return;
@@ -193,6 +198,7 @@ static void pred_simplex(const Case &c) {
   Reader rd(c);
   int dim = (int)rd.i(); g_dim = dim; g_A = rd.mat(dim, dim); g_m = rd.vec(dim); g_c = rd.d();
   V off = rd.vec(dim), st = rd.vec(dim);
+  double xtol = c.v.size() > (size_t)(dim * dim + 3 * dim + 1) ? rd.d() : 1e-12;
   dvector *x0, *step, *best; NewDVector(&x0, dim); NewDVector(&step, dim); initDVector(&best);
   for (int i = 0; i < dim; i++) { x0->data[i] = (double)(g_m[i] + off[i]); step->data[i] = (double)st[i]; }
   // best vertex of the initial simplex
@@ -200,14 +206,14 @@ static void pred_simplex(const Case &c) {
   for (int i = 0; i < dim; i++) { dvector *t; NewDVector(&t, dim); for (int j = 0; j < dim; j++) t->data[j] = x0->data[j] + (i == j ? step->data[j] : 0); fbest0 = std::min(fbest0, quad(t)); DelDVector(&t); }
   g_calls = 0;
   size_t iters = 20000;
-  double res = NelderMeadSimplex((double (*)())quad, x0, step, 1e-12, iters, best);
+  double res = NelderMeadSimplex((double (*)())quad, x0, step, xtol, iters, best);
   VF_CHECK((int)best->size == dim, "best has %zu coordinates", best->size);
   VF_CHECK(g_calls <= (long)(iters + 2) * (dim + 2) + dim + 1, "objective evaluated %ld times for iter=%zu in %d dimensions: the iteration cap does not bound the run", g_calls, iters, dim);
   double fb = quad(best);
   VF_CHECK(fb == res, "reported value %.17g is not the objective at the returned point (%.17g)", res, fb);
   VF_CHECK(res <= fbest0, "returned value %.17g is worse than the best vertex of the initial simplex %.17g", res, fbest0);
   ld gap0 = (ld)f0 - g_c;
-  VF_CHECK((ld)res - g_c <= 1e-6L * gap0 + 1e-9L, "simplex stopped at f - f* = %.3Lg (f(x0) - f* = %.3Lg, %d dimensions, %ld evaluations)", (ld)res - g_c, gap0, dim, g_calls);
+  VF_CHECK((ld)res - g_c <= std::max<ld>(1e-6L * gap0 + 1e-9L, 1000 * (ld)xtol), "simplex stopped at f - f* = %.3Lg (f(x0) - f* = %.3Lg, %d dimensions, xtol %g, %ld evaluations)", (ld)res - g_c, gap0, dim, xtol, g_calls);
   tag(g_calls < 1000 ? "evals<1e3" : g_calls < 10000 ? "evals<1e4" : "evals>=1e4");
   DelDVector(&x0); DelDVector(&step); DelDVector(&best);
 }
